@@ -555,6 +555,12 @@ class Run:
                         fb = ob.fallback() if callable(ob.fallback) else ob.fallback
                         if fb is None:
                             ob.verdict, ob.detail = "inconclusive", "abstract query %s and no precise fallback" % out.status
+                        elif isinstance(fb, list):
+                            ob.verdict, ob.detail = "refined", "abstract query was %s; split into %d exact parts" % (out.status, len(fb))
+                            idx = self.obs.index(ob)
+                            for j, f2 in enumerate(fb):
+                                self.obs.insert(idx + 1 + j, f2)
+                                nxt.append(f2)
                         else:
                             ob.verdict, ob.detail = "refined", "abstract query was %s; decided by the next encoding" % out.status
                             fb.name = ob.name.split("#")[0] + "#" + (fb.tag if getattr(fb, "tag", None) else "precise")
